@@ -4,7 +4,7 @@
    (2) force: copy_files(force) with _copy_if_possible's "skip when the destination exists" transcribed; in a fresh
        output directory (holding only what convert() made itself) both values of force give the copy the model uses. *)
 From Coq Require Import ZArith List Bool String Ascii Lia.
-From PV Require Import Base.Tok Base.TokArith C04.Model C13.Model C13.Spec C13.Proofs1 C13.Proofs2.
+From PV Require Import Base.Tok Base.TokArith C04.Model C13.Model C13.Spec C13.Proofs1 C13.Proofs2 C13.Fast.
 Import ListNotations.
 Open Scope string_scope.
 Open Scope list_scope.
@@ -102,6 +102,47 @@ Proof.
     injection Heq as <- <-. cbn [fst]. destruct (glob1 _ _ _) eqn:G; [|reflexivity]. exfalso.
     assert (n0 = "spikes.templates.npy") by (eapply glob_templates_only; [eapply names_out0; exact Hin0|exact G]). subst n0.
     assert (true = false) by (rewrite <- (proj1 Ht); eauto). discriminate.
+Qed.
+
+(* ================= (1b) compress_spikes_dtypes on a bare directory (the InCompress route of the comparator) ================= *)
+(* what one file may become: itself, or -- when one of the two globs selects it -- its uint16 cast *)
+Definition cimage (kv kv' : string * arr) : Prop :=
+  fst kv' = fst kv /\
+  (snd kv' = snd kv \/
+   ((glob1 "spikes.templates." "npy" (fst kv) = true \/ glob1 "spikes.clusters." "npy" (fst kv) = true) /\ snd kv' = to_u16 (snd kv))).
+
+Theorem compress_thm fs out : fst (compress_model fs) = Some out ->
+  (* same names in the same order, every file itself or its cast; files no glob selects are untouched *)
+  Forall2 cimage fs out /\
+  (* exactly the FIRST match of each glob is cast *)
+  (exists a t b, fs = a ++ t :: b /\ glob1 "spikes.templates." "npy" (fst t) = true /\
+                 (forall x, In x a -> glob1 "spikes.templates." "npy" (fst x) = false) /\ In (fst t, to_u16 (snd t)) out) /\
+  (exists c, In c fs /\ glob1 "spikes.clusters." "npy" (fst c) = true /\ In (fst c, to_u16 (snd c)) out).
+Proof.
+  unfold compress_model. destruct (compress_first "spikes.templates." fs) as [f2|] eqn:C1; [|discriminate].
+  destruct (compress_first "spikes.clusters." f2) as [f3|] eqn:C2; [|discriminate]. cbn [fst]. intros H. injection H as <-.
+  pose proof (compress_first_rel _ _ _ C1) as R1. pose proof (compress_first_rel _ _ _ C2) as R2.
+  destruct (compress_first_spec _ _ _ C1) as (a & t & b & Ef & Ef2 & Gt & Ha).
+  destruct (compress_first_spec _ _ _ C2) as (a' & c & b' & Ef2' & Ef3 & Gc & _).
+  split; [|split].
+  - clear -R1 R2. revert f2 f3 R1 R2. induction fs as [|kv r IH]; intros f2 f3 R1 R2.
+    + inversion R1; subst. inversion R2; subst. constructor.
+    + inversion R1 as [|? kv2 ? r2 H1 T1]; subst. inversion R2 as [|? kv3 ? r3 H2 T2]; subst. constructor; [|eapply IH; eauto].
+      destruct H1 as [N1 V1], H2 as [N2 V2]. split; [congruence|].
+      destruct V1 as [V1|[G1 V1]], V2 as [V2|[G2 V2]].
+      * left. congruence.
+      * right. rewrite N1 in G2. split; [now right|]. congruence.
+      * right. split; [now left|]. congruence.
+      * exfalso. rewrite N1 in G2. exact (globs_excl _ G1 G2).
+  - exists a, t, b. repeat split; auto.
+    assert (Hin2 : In (fst t, to_u16 (snd t)) f2) by (rewrite Ef2; apply in_or_app; right; now left).
+    destruct (Forall2_In_l _ _ _ _ R2 Hin2) as ([n3 a3] & Hin3 & Hn3 & Ha3). cbn [fst snd] in *. subst n3.
+    destruct Ha3 as [->|[G3 _]]; [exact Hin3|]. exfalso. exact (globs_excl _ Gt G3).
+  - assert (Hc2 : In c f2) by (rewrite Ef2'; apply in_or_app; right; now left).
+    destruct (Forall2_In_r _ _ _ _ R1 Hc2) as ([n1 a1] & Hin1 & Hn1 & Ha1). cbn [fst snd] in *.
+    assert (Es : snd c = a1) by (destruct Ha1 as [E|[G1 _]]; [exact E|exfalso; rewrite Hn1 in Gc; exact (globs_excl _ G1 Gc)]).
+    exists (n1, a1). cbn [fst snd]. subst n1 a1. split; [exact Hin1|]. split; [exact Gc|].
+    rewrite Ef3. apply in_or_app. right. now left.
 Qed.
 
 (* ================= (2) force ================= *)
